@@ -1073,12 +1073,18 @@ CHECKS["C17"] = {
 def c18_run(rep, tier, seed, tr):
     import cli as C, random, shutil as _sh
     rep.rules.append("1-3 files with 1-12 (thorough: 1-40) scripted blocks; scripts: echo / busy-loop echo (arguments returned between separators and compared verbatim with the model's rendering of file, line, attributes, content), nil, fixed string, and failing ones (syntax error, runtime error, top-level error, missing validate, number / table / boolean result, missing file) on any subset; contents with Unicode, quotes, tabs, blank lines; check-lua-pattern with value group / whole match / no match / invalid regex; in-process runs plus the binary under 1 / 4 / 16 runtime workers and pinned to one core; a safe-mode counting script checks that every block is called exactly once; non-trivial = at least 2 scripted blocks")
-    n = n_for(tier, 700, 20000)
-    rows = K.run_component(rep.prop, "lua", [], seed, n, tier)
+    n = n_for(tier, 700, 8000)
     def nontrivial(case, impl, model):
         return case["meta"]["blocks"] >= 2
-    K.correspondence(rep, rows, "lua", nontrivial, known=K.load_known(rep.prop), oracle=oracle_fail_closed)
-    sel = [r for r in rows if "err" not in r[2].get("ctx", {})][:n_for(tier, 24, 300)]
+    # cases with 30-40 scripted blocks carry large oracle tables: chunks of 2 000 keep the harness and the driver small
+    sel, chunk, k = [], 2000, 0
+    want_sel = n_for(tier, 24, 300)
+    while k * chunk < n:
+        rows = K.run_component(rep.prop, "lua", [], seed + 7919 * k, min(chunk, n - k * chunk), tier)
+        K.correspondence(rep, rows, "lua", nontrivial, known=K.load_known(rep.prop), oracle=oracle_fail_closed)
+        sel += [r for r in rows if "err" not in r[2].get("ctx", {})][:max(0, want_sel - len(sel))]
+        k += 1
+        del rows
     variants = [("workers-1", {"env_extra": {"TOKIO_WORKER_THREADS": "1"}}), ("workers-4", {"env_extra": {"TOKIO_WORKER_THREADS": "4"}}),
                 ("workers-16", {"env_extra": {"TOKIO_WORKER_THREADS": "16"}}), ("one-core", {"prefix": ["taskset", "-c", "0"]})]
     def one(row):
